@@ -394,7 +394,9 @@ theorem parse_total (c : Cfg) (hc : ParamsVE c) (s : Str) : OnlyVE (parse c s) :
       repeat' split at h'
       all_goals first | (cases h'; rfl) | cases h'
     · split at he
-      · cases he
+      · split at he
+        · rename_i e' h'; cases he; exact utf8Enc_onlyVE _ _ h'
+        · cases he
       · exact parseNet_onlyVE c hc _ _ _ _ _ he
 
 /-- the instantiation used most: UTF-8 documents -/
@@ -582,6 +584,8 @@ theorem accessors_total (c : Cfg)
     · split at h
       · -- not a network scheme: raw / scheme / path only
         rename_i hb
+        split at h
+        · cases h
         cases h
         refine ⟨⟨strip s, ?_⟩, ⟨_, rfl⟩, ⟨[], ?_⟩, ⟨_, rfl⟩⟩
         · unfold URLInfo.url; simp only [hb]
